@@ -5,6 +5,7 @@ mod cmd_set;
 mod cmd_enrich;
 mod cmd_binary;
 mod cmd_jax;
+mod cmd_lookup;
 mod enc;
 mod paths;
 mod project;
@@ -27,6 +28,7 @@ fn main() {
         "replay-enrich" => cmd_enrich::run(&args),
         "replay-binary" => cmd_binary::run(&args),
         "replay-jax" => cmd_jax::run(&args),
+        "replay-lookup" => cmd_lookup::run(&args),
         "debug-mismatch" => cmd_binary::debug_mismatch(&args),
         "replay-one" => {
             let text = std::fs::read_to_string(args.req("file")).unwrap_or_else(|e| {
@@ -44,6 +46,7 @@ fn main() {
                 "replay-enrich" => cmd_enrich::replay_one(&v),
                 "replay-binary" => cmd_binary::replay_one(&v),
                 "replay-jax" => cmd_jax::replay_one(&v),
+                "replay-lookup" => cmd_lookup::replay_one(&v),
                 other => {
                     eprintln!("unknown replay cmd {other}");
                     std::process::exit(2)
